@@ -30,7 +30,8 @@ Record econ := mkecon {
   e_eq : option (list Q);     (* equals_con[name] when meta['equals'] is not None *)
   e_mlo : list Q;             (* meta['lower'] broadcast: model-space lower bounds (used by _congradfunc) *)
   e_linear : bool;
-  e_rows : list (list Q)      (* rows of the driver-scaled total jacobian d(con)/d(desvars) *)
+  e_rows : list (list Q);     (* rows of the driver-scaled total jacobian d(con)/d(desvars) *)
+  e_off : list Q              (* value of the (affine) constraint at the zero design vector, driver space *)
 }.
 
 Definition esize (k : econ) : nat := length (e_lo k).
@@ -51,8 +52,9 @@ Definition elem_ok (k : econ) (j : nat) (c : Q) : Prop :=
 
 Inductive desc :=
 | DOld (is_eq : bool) (name : Z) (dbl : bool) (idx : nat)      (* {'type','fun','jac','args':[name,dbl,idx]} *)
-| DNl (name : Z) (idx : nat) (lb ub : Q)                       (* NonlinearConstraint(fun(args=[name,False,idx]), lb, ub) *)
-| DLin (name : Z) (lb ub : list Q) (rows : list (list Q)).     (* LinearConstraint(A rows, lb, ub) *)
+| DNl (name : Z) (idx : nat) (lb ub : option Q)                (* NonlinearConstraint(fun(args=[name,False,idx]), lb, ub); None = -inf / inf *)
+| DLin (name : Z) (lb ub : list (option Q)) (rows : list (list Q)) (offset : list Q).
+                                                               (* LinearConstraint(A rows, lb - offset, ub - offset) *)
 
 Definition is_eqc (k : econ) : bool := match e_eq k with Some _ => true | None => false end.
 
@@ -72,16 +74,21 @@ Definition encode_old (k : econ) : list desc :=
 Definition encode_old_present (k : econ) : list desc :=
   flat_map (fun j => old_for k (dbl_at k 0) j) (seq 0 (esize k)).
 
+(* lb_j = lb[j] if lb[j] > -INF_BOUND else -inf ; ub_j = ub[j] if ub[j] < INF_BOUND else inf *)
+Definition fin_lo (v : Q) : option Q := if Qltb (- INF) v then Some v else None.
+Definition fin_hi (v : Q) : option Q := if Qltb v INF then Some v else None.
+
 Definition nl_for (k : econ) (j : nat) : desc :=
   match eq_at k j with
-  | Some e => DNl (e_name k) j (Qmaxb e (- INF)) (Qminb e INF)
-  | None => DNl (e_name k) j (Qmaxb (lo_at k j) (- INF)) (Qminb (hi_at k j) INF)
+  | Some e => DNl (e_name k) j (fin_lo e) (fin_hi e)
+  | None => DNl (e_name k) j (fin_lo (lo_at k j)) (fin_hi (hi_at k j))
   end.
 
+(* the linear constraint is  rows . x + offset  in driver space *)
 Definition lin_desc (k : econ) : desc :=
   match e_eq k with
-  | Some e => DLin (e_name k) e e (e_rows k)
-  | None => DLin (e_name k) (e_lo k) (e_hi k) (e_rows k)
+  | Some e => DLin (e_name k) (map fin_lo e) (map fin_hi e) (e_rows k) (e_off k)
+  | None => DLin (e_name k) (map fin_lo (e_lo k)) (map fin_hi (e_hi k)) (e_rows k) (e_off k)
   end.
 
 (* repaired: one NonlinearConstraint per element *)
@@ -113,13 +120,21 @@ Definition congrad_sign (k : econ) (dbl : bool) (j : nat) : Q :=
 Definition congrad (k : econ) (dbl : bool) (j : nat) (row : list Q) : list Q :=
   map (fun g => congrad_sign k dbl j * g) row.
 
-(* SciPy's reading of a descriptor, cv = the constraint's values *)
+(* new style (repaired): the jacobian of _con_val_func is the plain gradient row *)
+Definition congrad_new (row : list Q) : list Q := row.
+
+Definition ole (lb : option Q) (c : Q) : Prop := match lb with Some l => l <= c | None => True end.
+Definition oge (ub : option Q) (c : Q) : Prop := match ub with Some u => c <= u | None => True end.
+
+(* SciPy's reading of a descriptor, cv = the constraint's values (for a LinearConstraint the bounds
+   are shifted by the offset and apply to rows . x = value - offset, which is the same condition) *)
 Definition sat (k : econ) (cv : list Q) (d : desc) : Prop :=
   match d with
   | DOld true _ dbl j => confunc k dbl j (nth j cv 0) == 0
   | DOld false _ dbl j => 0 <= confunc k dbl j (nth j cv 0)
-  | DNl _ j lb ub => lb <= nth j cv 0 /\ nth j cv 0 <= ub
-  | DLin _ lb ub _ => forall j, (j < length cv)%nat -> nth j lb 0 <= nth j cv 0 /\ nth j cv 0 <= nth j ub 0
+  | DNl _ j lb ub => ole lb (nth j cv 0) /\ oge ub (nth j cv 0)
+  | DLin _ lb ub _ _ => forall j, (j < length cv)%nat ->
+        ole (nth j lb None) (nth j cv 0) /\ oge (nth j ub None) (nth j cv 0)
   end.
 
 (* ------------------------------------------------------------------ Autoscaler._scale_bound *)
@@ -140,13 +155,37 @@ Fixpoint scaled_rows (scaler : list Q) (sx : Q) (A : list (list Q)) : list (list
   | _, _ => []
   end.
 
+(* Autoscaler._compute_scaled_bounds, REPAIRED (props/C21/fix_4.diff): under a negative scaler the
+   image of the upper bound is the lower bound in driver space and vice versa *)
+Definition sc_lo (a s lo hi : Q) : Q :=
+  if Qltb s 0 then (if Qle_bool INF hi then - INF else (hi + a) * s) else scale_lower a s lo.
+Definition sc_hi (a s lo hi : Q) : Q :=
+  if Qltb s 0 then (if Qle_bool lo (- INF) then INF else (lo + a) * s) else scale_upper a s hi.
+
+Fixpoint zip4q (f : Q -> Q -> Q -> Q -> Q) (a b c d : list Q) : list Q :=
+  match a, b, c, d with
+  | x :: a', y :: b', z :: c', w :: d' => f x y z w :: zip4q f a' b' c' d'
+  | _, _, _, _ => []
+  end.
+
 (* a constraint given in model space with per-element total_adder / total_scaler; A = its jacobian
-   rows in model space, sx = the (scalar) design-variable scaler *)
+   rows in model space, sx / ax = the (scalar) design-variable scaler / adder.
+   e_mlo (what the repaired _congradfunc tests) is the driver-space lower bound. *)
 Definition mk_econ (name : Z) (lo hi : list Q) (eq : option (list Q)) (adder scaler : list Q)
-           (linear : bool) (A : list (list Q)) (sx : Q) : econ :=
+           (linear : bool) (A : list (list Q)) (sx ax : Q) : econ :=
+  let slo := zip4q sc_lo adder scaler lo hi in
+  mkecon name slo (zip4q sc_hi adder scaler lo hi)
+         (match eq with Some e => Some (zip3q scale_upper adder scaler e) | None => None end)
+         slo linear (scaled_rows scaler sx A)
+         (zip3q (fun a s r => (r + a) * s) adder scaler
+                (map (fun row => fold_right Qplus 0 (map (fun v => v * (- ax)) row)) A)).
+
+(* the pinned commit: no exchange of the bounds, _congradfunc tests the model-space lower bound *)
+Definition mk_econ_present (name : Z) (lo hi : list Q) (eq : option (list Q)) (adder scaler : list Q)
+           (linear : bool) (A : list (list Q)) (sx ax : Q) : econ :=
   mkecon name (zip3q scale_lower adder scaler lo) (zip3q scale_upper adder scaler hi)
          (match eq with Some e => Some (zip3q scale_upper adder scaler e) | None => None end)
-         lo linear (scaled_rows scaler sx A).
+         lo linear (scaled_rows scaler sx A) [].
 
 (* the constraint's values in driver space at the model-space design point x *)
 Definition dotq (a b : list Q) : Q := fold_right Qplus 0 (map (fun p : Q * Q => fst p * snd p) (combine a b)).
@@ -158,8 +197,12 @@ Definition con_vals (adder scaler : list Q) (A : list (list Q)) (x : list Q) : l
 Definition vdesc (d : desc) : val :=
   match d with
   | DOld e n dbl j => VL [VS (if e then "eq" else "ineq")%string; VZ n; VB dbl; VZ (Z.of_nat j)]
-  | DNl n j lb ub => VL [VS "nl"%string; VZ n; VZ (Z.of_nat j); VQ lb; VQ ub]
-  | DLin n lb ub rows => VL [VS "lin"%string; vqs lb; vqs ub; VL (map vqs rows)]
+  | DNl n j lb ub => VL [VS "nl"%string; VZ n; VZ (Z.of_nat j); vopt VQ lb; vopt VQ ub]
+  | DLin n lb ub rows off =>
+      VL [VS "lin"%string;
+          VL (map (fun p : option Q * Q => vopt (fun l => VQ (l - snd p)) (fst p)) (combine lb off));
+          VL (map (fun p : option Q * Q => vopt (fun u => VQ (u - snd p)) (fst p)) (combine ub off));
+          VL (map vqs rows)]
   end.
 
 (* the whole list handed to scipy.optimize.minimize; style: false = old (dicts), true = new *)
@@ -170,9 +213,11 @@ Definition encode_all_present (new_style : bool) (ks : list econ) : val :=
   VL (map vdesc (flat_map (if new_style then encode_new_present else encode_old_present) ks)).
 
 (* probes of _confunc / _congradfunc: all (dbl, idx) pairs of one constraint at values cv *)
-Definition probe (grads : bool) (k : econ) (cv : list Q) : val :=
+Definition probe (grads new_style : bool) (k : econ) (cv : list Q) : val :=
   VL (map (fun j =>
         VL ([VQ (confunc k false j (nth j cv 0)); VQ (confunc k true j (nth j cv 0))] ++
-            (if grads then [vqs (congrad k false j (nth j (e_rows k) [])); vqs (congrad k true j (nth j (e_rows k) []))]
+            (if grads then
+               if new_style then [vqs (congrad_new (nth j (e_rows k) [])); vqs (congrad_new (nth j (e_rows k) []))]
+               else [vqs (congrad k false j (nth j (e_rows k) [])); vqs (congrad k true j (nth j (e_rows k) []))]
              else [])))
       (seq 0 (esize k))).
